@@ -73,6 +73,25 @@ Theorem C01_K_preserved_by_OpMarkStepPending :
               K_b (apply_op s (OpMarkStepPending l)) = true.
 Proof. exact K_op_mark_step_pending. Qed.
 
+(* The startup rescan, the watcher commit and the confirmation of declared files preserve K:
+   Workflow.update_file_hashes, with ANY cause, on files whose state is UNCONFIRMED, MISSING or
+   CONFIRMED.  The states are written first (which can break K for the consumers of a file that
+   is no longer CONFIRMED); handle_updated_file / handle_deleted_file /
+   mark_consuming_steps_pending repair it.  NOT covered: an update that names a BUILT or OUTDATED
+   file (an output changed from outside: the file becomes PLANNED and only its creator is marked
+   pending, its consumers stay SUCCEEDED until the creator has run again). *)
+From SV Require Import proofs.NoStaleRescan.
+
+Theorem C01_K_preserved_by_static_rescan :
+  forall c hs s s', unique_labels s -> single_producer s -> static_update hs s ->
+                    update_file_hashes c hs s = Ok s' -> K_b s = true -> K_b s' = true.
+Proof. exact K_update_static_files. Qed.
+
+Theorem C01_K_preserved_by_OpUpdateHashes_static :
+  forall c hs s, unique_labels s -> single_producer s -> static_update hs s -> K_b s = true ->
+                 K_b (apply_op s (OpUpdateHashes c hs)) = true.
+Proof. exact K_op_update_static. Qed.
+
 (* ------------------------------------------------------------------------------------------ *)
 (* Abstract engine (model/Engine.v): static-DAG fragment                                       *)
 (* ------------------------------------------------------------------------------------------ *)
